@@ -12,8 +12,9 @@ Init == stage = 0 /\ f = EmptyOH /\ g = EmptyOH
 ChooseF == stage = 0 /\ f' \in D /\ g' = g /\ stage' = 1
 ChooseG == /\ stage = 1 /\ g' \in D /\ f' = f /\ stage' = 2
            /\ EmitCase("strict.compose", <<"C01", "C05">>, [f |-> Pack(f), g |-> Pack(g')])
-           /\ (f = g' => /\ EmitCase("strict.compose_shr", <<"C01", "C05">>, [f |-> Pack(f), g |-> Pack(g')])
-                         /\ EmitCase("strict.source", <<"C05">>, [f |-> Pack(f)]) /\ EmitCase("strict.target", <<"C05">>, [f |-> Pack(f)]))
+           \* the operator form on every pair for which the order of the operands matters
+           /\ (f = g' \/ Composable(f, g') \/ Composable(g', f) => EmitCase("strict.compose_shr", <<"C01", "C05">>, [f |-> Pack(f), g |-> Pack(g')]))
+           /\ (f = g' => EmitCase("strict.source", <<"C05">>, [f |-> Pack(f)]) /\ EmitCase("strict.target", <<"C05">>, [f |-> Pack(f)]))
            \* the middle step of composition on its own: quotient the juxtaposition by the canonical coequalizer,
            \* and by the everything-to-one map (refused unless all labels agree)
            /\ (Composable(f, g') /\ NN(f) + NN(g') > 0 =>
